@@ -1,5 +1,6 @@
 //! Verification harness for meshless_voronoi (property-based testing and fuzzing).
 pub mod case;
+pub mod cli;
 pub mod exact;
 pub mod cellinfo;
 pub mod gen;
